@@ -76,7 +76,8 @@ type Native struct {
 	// graph
 	Edges *[][2]Value
 	// generic payload
-	X map[string]Value
+	X   map[string]Value
+	Any interface{}
 	// lazily checked string (a regexp capture whose uniqueness is only
 	// established if the program actually uses it)
 	Force func() *Term
